@@ -206,6 +206,14 @@ class Prop(object):
             v = verifier.verify(subject, s)
         except Exception as e:
             return 'verify-error:' + type(e).__name__
+        if not v:
+            # what is rejected as parsed must also be rejected as a copy (copies are what key.pubkey, copy.copy(key) and message composition hold)
+            try:
+                import copy as _copy
+                if verifier.verify(subject, _copy.copy(s)):
+                    return 'truthy'
+            except Exception:
+                pass
         return 'truthy' if v else 'falsy'
 
     def _judge(self, r, cls, verdict, tags, case, label, refcheck=None):
